@@ -21,3 +21,19 @@ pub fn hook(site: &'static str, key: u64) {
         h(site, key)
     }
 }
+
+use std::sync::atomic::{AtomicUsize, Ordering};
+
+static REPEAT_BOUND: AtomicUsize = AtomicUsize::new(0);
+
+/// replace the bound on repeated loads of one outermost load (0 = the library's own constant), so that
+/// a test can reach it with the handful of loads a model checker enumerates
+pub fn set_repeat_bound(n: usize) {
+    REPEAT_BOUND.store(n, Ordering::SeqCst);
+}
+pub fn repeat_bound() -> Option<usize> {
+    match REPEAT_BOUND.load(Ordering::SeqCst) {
+        0 => None,
+        n => Some(n)
+    }
+}
